@@ -105,3 +105,149 @@ def build_discinfo(d):
     for k, v in d.items():
         setattr(o, k, copy.deepcopy(v))
     return o
+
+
+def describe_ti(ti):
+    def var(v):
+        paths = {f: getattr(v.paths, f) for f in PATH_FIELDS if getattr(v.paths, f, None) is not None}
+        return {"id": v.id, "uid": v.uid, "name": v.name, "type": v.type, "paths": paths,
+                "children": {k: var(c) for k, c in v.variants.items()}}
+    return {
+        "release": {"name": ti.release.name, "short": ti.release.short, "version": ti.release.version, "is_layered": ti.release.is_layered},
+        "base_product": {"name": ti.base_product.name, "short": ti.base_product.short, "version": ti.base_product.version},
+        "tree": {"arch": ti.tree.arch, "build_timestamp": ti.tree.build_timestamp, "platforms": sorted(ti.tree.platforms)},
+        "variants": {k: var(v) for k, v in ti.variants.variants.items()},
+        "checksums": {p: list(tv) for p, tv in ti.checksums.checksums.items()},
+        "images": {p: dict(t) for p, t in ti.images.images.items()},
+        "stage2": {"mainimage": ti.stage2.mainimage, "instimage": ti.stage2.instimage},
+        "media": {"discnum": ti.media.discnum, "totaldiscs": ti.media.totaldiscs},
+    }
+
+
+def section_table(text):
+    """the section table the real parser produces for a text (raw values, no interpolation)"""
+    import productmd.common as C
+    p = C.SortedConfigParser()
+    p.read_file(io.StringIO(text))
+    return {s: {k: v for k, v in p.items(s, raw=True)} for s in p.sections()}
+
+
+def _dumps(ti, mv):
+    out = io.StringIO()
+    ti.dump(out, main_variant=mv)
+    return out.getvalue()
+
+
+def impl_roundtrip(case):
+    import productmd.treeinfo as TI
+    try:
+        ti = build_treeinfo(case["desc"])
+    except EXC as e:
+        return ["build-error", type(e).__name__, str(e)[:200]]
+    try:
+        text = _dumps(ti, case.get("main_variant"))
+    except EXC as e:
+        return exc_result(e)
+    except Exception as e:       # configparser errors
+        return ["err", "Other:" + type(e).__name__]
+    table = section_table(text)
+    ti2 = TI.TreeInfo()
+    try:
+        ti2.loads(text)
+    except EXC as e:
+        return ["ok", text, table, exc_result(e)]
+    except Exception as e:
+        return ["ok", text, table, ["err", "Other:" + type(e).__name__]]
+    try:
+        again = ["ok", _dumps(ti2, None)]
+    except EXC as e:
+        again = exc_result(e)
+    except Exception as e:
+        again = ["err", "Other:" + type(e).__name__]
+    return ["ok", text, table, ["ok", [describe_ti(ti2), again]]]
+
+
+def impl_load_text(case):
+    """load an arbitrary .treeinfo text; describe and re-dump"""
+    import productmd.treeinfo as TI
+    ti = TI.TreeInfo()
+    try:
+        ti.loads(case["text"])
+    except EXC as e:
+        return exc_result(e)
+    except Exception as e:
+        return ["err", "Other:" + type(e).__name__]
+    try:
+        again = ["ok", _dumps(ti, None)]
+    except EXC as e:
+        again = exc_result(e)
+    except Exception as e:
+        again = ["err", "Other:" + type(e).__name__]
+    try:
+        table = section_table(case["text"])
+    except Exception:
+        table = None
+    return ["ok", [describe_ti(ti), again], table]
+
+
+def impl_discinfo(case):
+    import productmd.discinfo as DI
+    o = build_discinfo(case["desc"])
+    try:
+        text = o.dumps()
+    except EXC as e:
+        return exc_result(e)
+    o2 = DI.DiscInfo()
+    try:
+        o2.loads(text)
+    except EXC as e:
+        return ["ok", text, exc_result(e)]
+    back = {"timestamp": o2.timestamp, "description": o2.description, "arch": o2.arch, "disc_numbers": o2.disc_numbers}
+    try:
+        again = ["ok", o2.dumps()]
+    except EXC as e:
+        again = exc_result(e)
+    return ["ok", text, ["ok", [back, again]]]
+
+
+def mini_ini(text):
+    """an independent minimal INI reader: sections, 'key = value' lines"""
+    out, cur = {}, None
+    for line in text.split("\n"):
+        if line.startswith("[") and line.rstrip().endswith("]"):
+            cur = line.strip()[1:-1]
+            out[cur] = {}
+        elif " = " in line and cur is not None:
+            k, v = line.split(" = ", 1)
+            out[cur][k] = v
+    return out
+
+
+def impl_general(case):
+    """write the tree; also give the [general] section alone to the pre-productmd reader"""
+    import productmd.treeinfo as TI
+    try:
+        ti = build_treeinfo(case["desc"])
+        text = _dumps(ti, case.get("main_variant"))
+    except EXC as e:
+        return exc_result(e)
+    except Exception as e:
+        return ["err", "Other:" + type(e).__name__]
+    sec = mini_ini(text).get("general", {})
+    only = "[general]\n" + "".join("%s = %s\n" % (k, v) for k, v in sec.items() if not k.startswith(";"))
+    old = TI.TreeInfo()
+    try:
+        old.loads(only)
+        seen = {"name": old.release.name, "version": old.release.version, "arch": old.tree.arch,
+                "variants": sorted(old.variants.variants), "timestamp": old.tree.build_timestamp}
+        v = old.variants.variants[sorted(old.variants.variants)[0]]
+        seen["packages"] = v.paths.packages
+        seen["repository"] = v.paths.repository
+        seen["source_packages"] = v.paths.source_packages
+        seen["source_repository"] = v.paths.source_repository
+        seen["short"] = old.release.short
+    except EXC as e:
+        seen = exc_result(e)
+    except Exception as e:
+        seen = ["err", "Other:" + type(e).__name__]
+    return ["ok", text, seen]
